@@ -609,10 +609,16 @@ func (rt *Runtime) checkOnline(rec *ExecRec, p Party) {
 			// the zero value: legitimate only as the stand-in for the outputs of a
 			// party that returned a nil struct during this operation
 			ok := false
-			for _, np := range rt.NilStructOps[op] {
-				for _, s := range rt.Parties[np].Out {
-					if Permit(s.Label, slot) {
-						ok = true
+			for nop, nps := range rt.NilStructOps { // order-insensitive: any match suffices
+				for _, np := range nps {
+					// this operation's nil results, or the memoised nil result of a run-once party
+					if nop != op && !rt.Parties[np].Once {
+						continue
+					}
+					for _, s := range rt.Parties[np].Out {
+						if Permit(s.Label, slot) {
+							ok = true
+						}
 					}
 				}
 			}
